@@ -2,6 +2,7 @@ package main
 
 import (
 	"fmt"
+	"regexp"
 	"sort"
 	"go/ast"
 	"go/token"
@@ -82,7 +83,7 @@ func (g *Gen) newUnit(name string, fd *ast.FuncDecl, b *Block) *Unit {
 			u.bv = true
 		}
 	}
-	if fd != nil {
+	if fd != nil && fd.Name != nil {
 		obj := g.P.Info.Defs[fd.Name].(*types.Func)
 		u.sig = obj.Type().(*types.Signature)
 		u.bodyPos = fd.Body.Lbrace + 1
@@ -158,6 +159,14 @@ func (u *Unit) runBody(st *State, body []ast.Stmt) {
 		st.assume(t.S)
 		u.entry.assume(t.S)
 		reqTexts = append(reqTexts, c.Text)
+	}
+	// `assumes` clauses: facts the unit relies on that no caller is asked to establish (reported)
+	for _, c := range b.clauses("assumes") {
+		e := u.specEv(st, u.bodyPos)
+		t := e.evSpec(c.Text)
+		st.assume(t.S)
+		u.entry.assume(t.S)
+		g.Assumed["assumed in "+u.name+" (no caller obligation): "+c.Text] = true
 	}
 	// vacuity guard: the precondition must be satisfiable
 	cov := u.addObl(u.contractID()+"/cover", u.props, st, "false", "requires satisfiable: "+strings.Join(reqTexts, " && "), nil)
@@ -466,7 +475,7 @@ func (g *Gen) axiomsText(u *Unit) string {
 		}
 	}
 	for _, k := range sortedKeys(ax) {
-		if (strings.HasPrefix(k, "MONO_") || strings.HasPrefix(k, "AMD64_") || strings.HasPrefix(k, "MULNEG_")) && !extra[k] {
+		if (strings.HasPrefix(k, "MONO_") || strings.HasPrefix(k, "AMD64_") || strings.HasPrefix(k, "MULNEG_") || k == "BRIDGE_ORD") && !extra[k] {
 			continue
 		}
 		if strings.HasPrefix(k, "AMD64_") {
@@ -489,17 +498,25 @@ func (o *Obligation) queryV(g *Gen, withModel bool, variant int) string {
 	}
 	var sb strings.Builder
 	sb.WriteString("(set-option :produce-models true)\n(set-logic ALL)\n")
-	sb.WriteString(g.Pre.text())
-	if variant < 2 {
-		sb.WriteString(g.axiomsText(o.unit))
-	} else {
-		sb.WriteString(g.groundAxiomsText(o.unit))
+	// axioms first: they may add declarations to the prelude
+	axt := g.axiomsText(o.unit)
+	if variant >= 2 {
+		axt = g.groundAxiomsText(o.unit)
 	}
+	sb.WriteString(g.Pre.text())
+	sb.WriteString(axt)
 	seen := map[string]bool{}
+	goal := o.Goal
+	if variant > 0 && o.LightGoal != "" {
+		goal = o.LightGoal
+	}
 	if o.unit != nil {
 		for _, d := range o.unit.decls {
 			sb.WriteString(d + "\n")
 		}
+		// cone of influence: a definition constrains its newest symbol; it is relevant only if that
+		// symbol is (transitively) mentioned by the hypotheses or the goal
+		var cands []string
 		for _, d := range o.unit.defs {
 			if variant > 0 && isHeavyHyp(d) {
 				continue
@@ -507,19 +524,17 @@ func (o *Obligation) queryV(g *Gen, withModel bool, variant int) string {
 			if variant > 2 && strings.HasPrefix(d, "(forall (") && strings.Contains(d, "(not (fresh$ ") {
 				continue
 			}
+			cands = append(cands, d)
+		}
+		if variant < 3 {
+			cands = append(cands, o.unit.sepDefs...)
+		}
+		for _, d := range coneOfInfluence(cands, append(append([]string{}, o.Hyps...), goal)) {
 			if seen[d] {
 				continue
 			}
 			seen[d] = true
 			sb.WriteString("(assert " + d + ")\n")
-		}
-	}
-	if o.unit != nil && variant < 3 {
-		for _, d := range o.unit.sepDefs {
-			if !seen[d] {
-				seen[d] = true
-				sb.WriteString("(assert " + d + ")\n")
-			}
 		}
 	}
 	for _, h := range o.Hyps {
@@ -531,10 +546,6 @@ func (o *Obligation) queryV(g *Gen, withModel bool, variant int) string {
 		}
 		seen[h] = true
 		sb.WriteString("(assert " + h + ")\n")
-	}
-	goal := o.Goal
-	if variant > 0 && o.LightGoal != "" {
-		goal = o.LightGoal
 	}
 	sb.WriteString("(assert " + smtNot(goal) + ")\n")
 	sb.WriteString("(check-sat)\n")
@@ -744,4 +755,75 @@ func (u *Unit) finishCase() {
 			u.addMerged(fmt.Sprintf("%s/panics_if", b.ID()), clauseProps(b, iff[0]), parts, "normal end of case implies !("+iff[0].Text+")")
 		}
 	}
+}
+
+var symRe = regexp.MustCompile(`[A-Za-z0-9_$.]+![0-9]+(p[0-9]*)?`)
+
+func symbolsOf(s string) []string { return symRe.FindAllString(s, -1) }
+
+func symAge(sym string) int {
+	i := strings.LastIndex(sym, "!")
+	n := 0
+	fmt.Sscanf(sym[i+1:], "%d", &n)
+	return n
+}
+
+// coneOfInfluence keeps the definitions whose newest symbol is reachable from the roots.
+func coneOfInfluence(defs []string, roots []string) []string {
+	type dinfo struct {
+		text   string
+		newest string
+		syms   []string
+	}
+	var ds []dinfo
+	byNewest := map[string][]int{}
+	var out []string
+	for _, d := range defs {
+		syms := symbolsOf(d)
+		if len(syms) == 0 {
+			out = append(out, d)
+			continue
+		}
+		nw := syms[0]
+		for _, s := range syms {
+			if symAge(s) > symAge(nw) {
+				nw = s
+			}
+		}
+		ds = append(ds, dinfo{d, nw, syms})
+		byNewest[nw] = append(byNewest[nw], len(ds)-1)
+	}
+	need := map[string]bool{}
+	var work []string
+	for _, r := range roots {
+		for _, s := range symbolsOf(r) {
+			if !need[s] {
+				need[s] = true
+				work = append(work, s)
+			}
+		}
+	}
+	taken := map[int]bool{}
+	for len(work) > 0 {
+		s := work[len(work)-1]
+		work = work[:len(work)-1]
+		for _, i := range byNewest[s] {
+			if taken[i] {
+				continue
+			}
+			taken[i] = true
+			for _, t := range ds[i].syms {
+				if !need[t] {
+					need[t] = true
+					work = append(work, t)
+				}
+			}
+		}
+	}
+	for i, d := range ds {
+		if taken[i] {
+			out = append(out, d.text)
+		}
+	}
+	return out
 }
